@@ -1,5 +1,6 @@
 import NemoVerif.Drive.Common
 import NemoVerif.Models.Conflict
+import NemoVerif.Generated.C04
 
 namespace NemoVerif.Drive.C05
 open Lean NemoVerif NemoVerif.Drive NemoVerif.Conflict
@@ -26,6 +27,16 @@ def headOfJson (j : Json) : Except String HeadInfo := do
   let catchLbl ← (← j.getObjVal? "catch").getBool?
   let isStart ← (← j.getObjVal? "start").getBool?
   pure { uid, flow, loop, scores, ev, act, nrefs, isStart, catchLbl }
+
+def mscoreOfJson (j : Json) : Except String MScore := do
+  let k ← (← j.getObjVal? "k").getNat?
+  let prio ← match j.getObjVal? "prio" with
+    | .ok (.arr a) =>
+      if h : a.size = 2 then do
+        let m ← a[0].getInt?; let e ← a[1].getNat?; pure (some (m, e))
+      else throw "bad prio"
+    | _ => pure none
+  pure { k, prio }
 
 def fateStr : Fate → String
   | .picked => "picked" | .cowin => "cowin" | .caught => "caught" | .aborted => "aborted"
@@ -54,6 +65,11 @@ def handle (op : String) (j : Json) : Except String Json := do
       ("tie_sizes", natsJson (tieSizes one hs)),
       ("tbl", Json.arr (tbl'.map (fun p => natsJson [p.1, p.2])).toArray),
       ("repoints", Json.arr ((repoints none fs).map (fun p => natsJson [p.1, p.2.1, p.2.2])).toArray)])
+  | "mcmp" =>
+    let a ← mscoreOfJson (← j.getObjVal? "a")
+    let b ← mscoreOfJson (← j.getObjVal? "b")
+    pure (Json.mkObj [("cmp", Json.num (JsonNumber.fromInt
+      (mcmp NemoVerif.Generated.C04.scoreBaseNum NemoVerif.Generated.C04.scoreBaseDen a b)))])
   | _ => throw s!"unknown op C05.{op}"
 
 end NemoVerif.Drive.C05
